@@ -7,6 +7,8 @@ import Mutiny.Proofs.HandlesProps
 returned id); `newArc` allocates through the same path.  Everything holds in the presence of all other operations of the
 model (shared handles being cloned and dropped concurrently, conversions, …): every `n`, every `s` with `Reachable n s`.
 `Owning s i` : control block `i` owns its slot (`rc > 0`, or `oa.drop.dealloc` still pending).
+`inTransitOf s (s.thr t) = some x` : thread `t` is inside `dealloc_id` for slot `x` (destructor pending or running —
+`dDestroy`/`uDestroy` — or destructor done and free-list push pending — `dRelease`/`uRelease`).
 -/
 
 namespace Mutiny.Handles
@@ -17,7 +19,8 @@ variable {n : Nat} {s : St}
     owned by a unique handle and not owned by any control block -/
 theorem c13_exclusive (hr : Reachable n s) (t v id : Nat) (ht : s.thr t = .idle)
     (hres : (apply s (.newUnique t v)).thr t = .done (.unique id)) :
-    id ∈ s.free ∧ id < s.N ∧ id ∉ s.uniques ∧ ∀ i, Owning s i → (getCB s i).id ≠ id := by
+    id ∈ s.free ∧ id < s.N ∧ id ∉ s.uniques ∧ (∀ i, Owning s i → (getCB s i).id ≠ id) ∧
+    (∀ u, inTransitOf s (s.thr u) ≠ some id) := by
   have hi := reachable_inv hr
   cases hf : s.free with
   | nil => rw [newUnique_none v ht hf] at hres; simp at hres
@@ -27,8 +30,9 @@ theorem c13_exclusive (hr : Reachable n s) (t v id : Nat) (ht : s.thr t = .idle)
     subst hres
     have hx : x ∈ s.free := hf ▸ List.mem_cons_self ..
     rw [← hf]
-    refine ⟨hx, hi.freeLt x hx, fun hu => (hi.uniqOk x hu).2.1 hx, fun i ho e => ?_⟩
-    exact (hi.ownOk i ((owns_iff hi i).2 ho)).2.2.1 (e ▸ hx)
+    refine ⟨hx, hi.freeLt x hx, fun hu => (hi.uniqOk x hu).2.1 hx, fun i ho e => ?_,
+      fun u hu => (inTransit_ok hi hu).2.1 hx⟩
+    exact (hi.ownOk i (owns_of_owning hi ho)).2.2.1 (e ▸ hx)
 
 /-- the same for an allocation through `OgreArc::new`: the new control block is a fresh one and its slot was free and
     unowned -/
@@ -37,7 +41,8 @@ theorem c13_exclusive_arc (hr : Reachable n s) (t v k j : Nat) (ht : s.thr t = .
     j = s.cbs.length ∧
     (getCB (apply s (.newArc t v k)) j).id ∈ s.free ∧ (getCB (apply s (.newArc t v k)) j).id < s.N ∧
     (getCB (apply s (.newArc t v k)) j).id ∉ s.uniques ∧
-    ∀ i, Owning s i → (getCB s i).id ≠ (getCB (apply s (.newArc t v k)) j).id := by
+    (∀ i, Owning s i → (getCB s i).id ≠ (getCB (apply s (.newArc t v k)) j).id) ∧
+    (∀ u, inTransitOf s (s.thr u) ≠ some (getCB (apply s (.newArc t v k)) j).id) := by
   have hi := reachable_inv hr
   cases hf : s.free with
   | nil => rw [newArc_none v ht hk hf] at hres; simp at hres
@@ -48,33 +53,38 @@ theorem c13_exclusive_arc (hr : Reachable n s) (t v k j : Nat) (ht : s.thr t = .
     have hx : x ∈ s.free := hf ▸ List.mem_cons_self ..
     simp only [getCB_setThr, getCB_pushCB, cbs_allocSt, if_true]
     rw [← hf]
-    refine ⟨trivial, hx, hi.freeLt x hx, fun hu => (hi.uniqOk x hu).2.1 hx, fun i ho e => ?_⟩
-    exact (hi.ownOk i ((owns_iff hi i).2 ho)).2.2.1 (e ▸ hx)
+    refine ⟨trivial, hx, hi.freeLt x hx, fun hu => (hi.uniqOk x hu).2.1 hx, fun i ho e => ?_,
+      fun u hu => (inTransit_ok hi hu).2.1 hx⟩
+    exact (hi.ownOk i (owns_of_owning hi ho)).2.2.1 (e ▸ hx)
 
-/-- exact accounting: the owning control blocks (listed without repetition in `own`), the unique handles and the
-    free list partition the `N` slots — as a count, and as a permutation of `0 .. N-1` -/
+/-- exact accounting: the owning control blocks (listed without repetition in `own`), the unique handles, the slots in
+    transit inside `dealloc_id` (threads listed without repetition in `tr`) and the free list partition the `N` slots —
+    as a count, and as a permutation of `0 .. N-1` -/
 theorem c13_bound (hr : Reachable n s) :
     s.N = n ∧
-    ∃ own : List Nat, own.Nodup ∧ (∀ i, i ∈ own ↔ Owning s i) ∧
-      s.uniques.length + own.length + s.free.length = s.N ∧
-      (own.map (fun i => (getCB s i).id) ++ s.uniques ++ s.free).Perm (List.range s.N) := by
+    ∃ own tr : List Nat, own.Nodup ∧ tr.Nodup ∧ (∀ i, i ∈ own ↔ Owning s i) ∧
+      (∀ t, t ∈ tr ↔ (inTransitOf s (s.thr t)).isSome = true) ∧
+      s.uniques.length + own.length + tr.length + s.free.length = s.N ∧
+      (own.map (fun i => (getCB s i).id) ++ s.uniques ++ tr.map (slotOf s) ++ s.free).Perm (List.range s.N) := by
   have hi := reachable_inv hr
-  obtain ⟨own, h1, h2, h3, _, _, h6⟩ := pool_partition hi
-  exact ⟨N_reachable hr, own, h1, h2, by omega, h6⟩
+  obtain ⟨own, tr, h1, h2, h3, h4, h5, _, _, h8⟩ := pool_partition hi
+  exact ⟨N_reachable hr, own, tr, h1, h2, h3, h4, by omega, h8⟩
 
 /-- at most `N` slots are outstanding -/
 theorem c13_at_most_N (hr : Reachable n s) (own : List Nat) (hn : own.Nodup) (ho : ∀ i ∈ own, Owning s i) :
     s.uniques.length + own.length ≤ s.N := by
-  obtain ⟨_, own', h1, h2, h3, _⟩ := c13_bound hr
+  obtain ⟨_, own', _, h1, _, h2, _, h3, _⟩ := c13_bound hr
   have := hn.length_le_of_subset (l₂ := own') (fun i hi => (h2 i).2 (ho i hi))
   omega
 
-/-- an allocation answers "none" exactly when the free list is empty, i.e. exactly when all `N` slots are outstanding -/
+/-- an allocation answers "none" exactly when the free list is empty, i.e. exactly when all `N` slots are outstanding
+    (owned, or still inside `dealloc_id`) -/
 theorem c13_exhaustion (hr : Reachable n s) (t v : Nat) (ht : s.thr t = .idle) :
     ((apply s (.newUnique t v)).thr t = .done .none ↔ s.free = []) ∧
     (∀ k, k > 0 → ((apply s (.newArc t v k)).thr t = .done .none ↔ s.free = [])) ∧
-    (s.free = [] ↔ ∃ own : List Nat, own.Nodup ∧ (∀ i, i ∈ own ↔ Owning s i) ∧
-        s.uniques.length + own.length = s.N) := by
+    (s.free = [] ↔ ∃ own tr : List Nat, own.Nodup ∧ tr.Nodup ∧ (∀ i, i ∈ own ↔ Owning s i) ∧
+        (∀ t, t ∈ tr ↔ (inTransitOf s (s.thr t)).isSome = true) ∧
+        s.uniques.length + own.length + tr.length = s.N) := by
   refine ⟨?_, ?_, ?_⟩
   · cases hf : s.free with
     | nil => rw [newUnique_none v ht hf]; simp
@@ -83,27 +93,55 @@ theorem c13_exhaustion (hr : Reachable n s) (t v : Nat) (ht : s.thr t = .idle) :
     cases hf : s.free with
     | nil => rw [newArc_none v ht hk hf]; simp
     | cons x rest => rw [newArc_eq v ht hk hf]; simp
-  · obtain ⟨_, own, h1, h2, h3, _⟩ := c13_bound hr
+  · obtain ⟨_, own, tr, h1, h2, h3, h4, h5, _⟩ := c13_bound hr
     constructor
-    · intro hf; rw [hf] at h3; exact ⟨own, h1, h2, by simpa using h3⟩
-    · rintro ⟨own', g1, g2, g3⟩
-      have e1 := h1.length_le_of_subset (l₂ := own') (fun i hi => (g2 i).2 ((h2 i).1 hi))
-      have e2 := g1.length_le_of_subset (l₂ := own) (fun i hi => (h2 i).2 ((g2 i).1 hi))
+    · intro hf; rw [hf] at h5; exact ⟨own, tr, h1, h2, h3, h4, by simpa using h5⟩
+    · rintro ⟨own', tr', g1, g2, g3, g4, g5⟩
+      have e1 := h1.length_le_of_subset (l₂ := own') (fun i hi => (g3 i).2 ((h3 i).1 hi))
+      have e2 := g1.length_le_of_subset (l₂ := own) (fun i hi => (h3 i).2 ((g3 i).1 hi))
+      have e3 := h2.length_le_of_subset (l₂ := tr') (fun i hi => (g4 i).2 ((h4 i).1 hi))
+      have e4 := g2.length_le_of_subset (l₂ := tr) (fun i hi => (h4 i).2 ((g4 i).1 hi))
       exact List.eq_nil_of_length_eq_zero (by omega)
 
-/-- whenever a slot is outstanding the free list is not full: the push in `dealloc_id` (whose result the code
-    ignores) cannot fail -/
-theorem c13_dealloc_room (hr : Reachable n s) (h : s.uniques ≠ [] ∨ ∃ i, Owning s i) : s.free.length < s.N := by
-  obtain ⟨_, own, h1, h2, h3, _⟩ := c13_bound hr
-  rcases h with h | ⟨i, hi⟩
+/-- whenever a slot is outstanding — owned, or in transit inside `dealloc_id`, in particular at the very moment of the
+    free-list push (`dRelease` / `uRelease`) — the free list is not full: the push in `dealloc_id` (whose result the
+    code ignores) cannot fail -/
+theorem c13_dealloc_room (hr : Reachable n s)
+    (h : s.uniques ≠ [] ∨ (∃ i, Owning s i) ∨ ∃ t, (inTransitOf s (s.thr t)).isSome = true) :
+    s.free.length < s.N := by
+  obtain ⟨_, own, tr, h1, h2, h3, h4, h5, _⟩ := c13_bound hr
+  rcases h with h | ⟨i, hi⟩ | ⟨t, ht⟩
   · have := List.length_pos_iff.2 h; omega
-  · have := List.length_pos_of_mem ((h2 i).2 hi); omega
+  · have := List.length_pos_of_mem ((h3 i).2 hi); omega
+  · have := List.length_pos_of_mem ((h4 t).2 ht); omega
 
-/-- `dealloc` puts the id at the *end* of the free list … -/
+/-- the two instances at the push itself -/
+theorem c13_dealloc_room_at_push (hr : Reachable n s) (t : Nat) :
+    (∀ i, s.thr t = .dRelease i → s.free.length < s.N ∧ (step s t).free = s.free ++ [(getCB s i).id]) ∧
+    (∀ x, s.thr t = .uRelease x → s.free.length < s.N ∧ (step s t).free = s.free ++ [x]) := by
+  constructor
+  · intro i hl
+    exact ⟨c13_dealloc_room hr (Or.inr (Or.inr ⟨t, by simp [hl, inTransitOf]⟩)), by simp [step, hl]⟩
+  · intro x hl
+    exact ⟨c13_dealloc_room hr (Or.inr (Or.inr ⟨t, by simp [hl, inTransitOf]⟩)), by simp [step, hl]⟩
+
+/-- `dealloc` = give the slot up (`dropUnique`), run the destructor (`uDestroy` step), push the id (`uRelease` step).
+    After the `uRelease` step the id is at the *end* of the free list — and not before: until then it is not in `free` … -/
 theorem c13_dealloc_frees (s : St) (t id : Nat) (ht : s.thr t = .idle) (hm : id ∈ s.uniques) :
-    (apply s (.dropUnique t id)).free = s.free ++ [id] ∧ (apply s (.dropUnique t id)).uniques = s.uniques.erase id ∧
-    (apply s (.dropUnique t id)).alive id = false := by
-  simp [apply, ht, hm, dealloc]
+    (apply s (.dropUnique t id)).free = s.free ∧ (apply s (.dropUnique t id)).thr t = .uDestroy id ∧
+    (run s [.dropUnique t id, .step t]).free = s.free ∧ (run s [.dropUnique t id, .step t]).thr t = .uRelease id ∧
+    (run s [.dropUnique t id, .step t]).alive id = false ∧
+    (run s [.dropUnique t id, .step t, .step t]).free = s.free ++ [id] ∧
+    (run s [.dropUnique t id, .step t, .step t]).uniques = s.uniques.erase id ∧
+    (run s [.dropUnique t id, .step t, .step t]).alive id = false ∧
+    (run s [.dropUnique t id, .step t, .step t]).dropLog = s.dropLog ++ [(id, s.slotGen id, s.slot id)] ∧
+    (run s [.dropUnique t id, .step t, .step t]).thr t = .done .unit := by
+  have e1 := dropUnique_eq ht hm
+  have e2 : run s [.dropUnique t id, .step t] =
+      setThr (destroy (setThr (withUniques s (s.uniques.erase id)) t (.uDestroy id)) id) t (.uRelease id) := by
+    simp only [run_cons, run_nil]; rw [e1, step_uDestroy_eq (x := id) (by simp)]
+  rw [dropUnique_complete s t id ht hm, e1, e2]
+  simp [dealloc]
 
 /-- … and a thread allocating alone gets it back after exactly the ids that were queued before it (FIFO reuse) -/
 theorem c13_reuse (s : St) (t id : Nat) (l vs : List Nat) (v : Nat) (ht : s.thr t = .idle) (hf : s.free = l ++ [id])
@@ -113,6 +151,18 @@ theorem c13_reuse (s : St) (t id : Nat) (l vs : List Nat) (v : Nat) (ht : s.thr 
   obtain ⟨h1, h2, h3⟩ := solo_allocs t vs s l [id] ht hf hl
   refine ⟨?_, h3⟩
   rw [newUnique_eq v h1 h2]; simp
+
+/-- both together: drop a unique handle, then allocate alone — the id comes back after the ids queued before it -/
+theorem c13_reuse_after_drop (s : St) (t id : Nat) (vs : List Nat) (v : Nat) (ht : s.thr t = .idle)
+    (hm : id ∈ s.uniques) (hl : vs.length = s.free.length) :
+    (apply (run (run s [.dropUnique t id, .step t, .step t, .ack t])
+      (vs.flatMap fun w => [Act.newUnique t w, Act.ack t])) (.newUnique t v)).thr t = .done (.unique id) := by
+  have e : run s [.dropUnique t id, .step t, .step t, .ack t] =
+      run (run s [.dropUnique t id, .step t, .step t]) [.ack t] := run_append s [_, _, _] [_]
+  have h := c13_dealloc_frees s t id ht hm
+  refine (c13_reuse _ t id s.free vs v ?_ ?_ hl).1
+  · rw [e, run_cons, run_nil, ack_eq (r := .unit) h.2.2.2.2.2.2.2.2.2]; simp
+  · rw [e, run_cons, run_nil, ack_eq (r := .unit) h.2.2.2.2.2.2.2.2.2]; simpa using h.2.2.2.2.2.1
 
 /-- slot reference ↔ slot id (`base + id * size`, `(ref - base) / size`) -/
 def refOf (base size id : Nat) : Nat := base + id * size
@@ -138,11 +188,19 @@ example : let s := run (init 2) [.newArc 0 7 1, .ack 0, .newUnique 0 8, .ack 0, 
     Reachable 2 s ∧ s.free = [] ∧ s.uniques = [1] ∧ s.thr 1 = .done .none ∧ (getCB s 0).id = 0 :=
   ⟨⟨_, rfl⟩, by decide, by decide, by decide, by decide⟩
 
-example : let s := run (init 2) [.newArc 0 7 1, .ack 0, .newUnique 0 8, .ack 0, .dropUnique 0 1, .ack 0, .newUnique 1 9]
+example : let s := run (init 2) [.newArc 0 7 1, .ack 0, .newUnique 0 8, .ack 0, .dropUnique 0 1, .step 0, .step 0, .ack 0,
+      .newUnique 1 9]
     s.thr 1 = .done (.unique 1) ∧ s.slot 1 = 9 ∧ s.dropLog = [(1, 2, 8)] := by decide
 
+/-- while the destructor of slot 1 is running (or the push is pending) the pool still answers `none` -/
+example : let s := run (init 2) [.newArc 0 7 1, .ack 0, .newUnique 0 8, .ack 0, .dropUnique 0 1, .newUnique 1 9]
+    s.thr 0 = .uDestroy 1 ∧ s.thr 1 = .done .none ∧ s.slot 1 = 8 := by decide
+example : let s := run (init 2) [.newArc 0 7 1, .ack 0, .newUnique 0 8, .ack 0, .dropUnique 0 1, .step 0, .newUnique 1 9]
+    s.thr 0 = .uRelease 1 ∧ s.thr 1 = .done .none ∧ s.slot 1 = 8 ∧ s.dropLog = [(1, 2, 8)] := by decide
+
 /-- FIFO: free list `[1, 0]` after two deallocations, then ids come back as 1, 0 -/
-example : let s := run (init 2) [.newUnique 0 5, .ack 0, .newUnique 0 6, .ack 0, .dropUnique 0 1, .ack 0, .dropUnique 0 0, .ack 0]
+example : let s := run (init 2) [.newUnique 0 5, .ack 0, .newUnique 0 6, .ack 0, .dropUnique 0 1, .step 0, .step 0, .ack 0,
+      .dropUnique 0 0, .step 0, .step 0, .ack 0]
     s.free = [1, 0] ∧ (apply (run s [.newUnique 0 1, .ack 0]) (.newUnique 0 2)).thr 0 = .done (.unique 0) := by decide
 
 #print axioms c13_exclusive
@@ -151,8 +209,10 @@ example : let s := run (init 2) [.newUnique 0 5, .ack 0, .newUnique 0 6, .ack 0,
 #print axioms c13_at_most_N
 #print axioms c13_exhaustion
 #print axioms c13_dealloc_room
+#print axioms c13_dealloc_room_at_push
 #print axioms c13_dealloc_frees
 #print axioms c13_reuse
+#print axioms c13_reuse_after_drop
 #print axioms c13_id_ref_bijection
 
 end Mutiny.Handles
